@@ -3791,6 +3791,10 @@ def parse_program(program: Program, dirpath: Optional[str] = None, keep: bool = 
     try:
         root = program.write(d)
         ps = Parser(**program.compile_kwargs())
+        # a bystander with the opposite switches, built after the parser under test and before it is used: the options of
+        # one Parser object are its own (another instance alive in the process must not change them)
+        kw = program.compile_kwargs()
+        _bystander = Parser(**{k: (not v if isinstance(v, bool) and k in ("auto_pad", "validate_alignment") else v) for k, v in kw.items()})
         prev = None
         try:
             if use_alarm:
